@@ -418,3 +418,45 @@ VARIANTS += [
  dict(name='default-key-nil-test-dropped', file='config/keys.go', expect='flagged(nilable/decoded-field/ngo/config.validateKeys)',
       find='\tif config.Default != nil {\n\t\tdefaultKey := *config.Default\n', replace='\tif len(config.Keys) > 0 {\n\t\tdefaultKey := *config.Default\n'),
 ]
+
+# the pointer handed back next to a verdict: what the caller knows about the other result must exclude every exit of the helper
+# that hands back an untested pointer (`return r, ok` does not, `return r, ok && r != nil` does)
+def h_verdict(res, body):
+    return vi('func verdictFor(response *pluginframework.VerifySignatureResponse, capability pluginframework.Capability) (*pluginframework.VerificationResult, ' + res + ') {\n' + body + '}\n')
+LK_ERR = '\t\tpluginResult, lerr := verdictFor(response, capability)\n\t\tif lerr != nil {\n'
+DE_HKEY = 'flagged(nilable/decoded-element/ngo/verifier.verdictFor)'
+VARIANTS += [
+ dict(name='benign-verdict-from-helper-ok-implies-non-nil', expect='silent', edits=[(V, LK_OLD, lk_helper('!ok')), vi(h_lookup('r, ok && r != nil'))]),
+ dict(name='benign-verdict-from-helper-true-only-with-non-nil', expect='silent', edits=[(V, LK_OLD, lk_helper('!ok')),
+      h_verdict('bool', '\tif r, ok := response.VerificationResults[capability]; ok && r != nil {\n\t\treturn r, true\n\t}\n\treturn nil, false\n')]),
+ dict(name='verdict-from-helper-true-on-presence', expect=DE_HKEY, edits=[(V, LK_OLD, lk_helper('!ok')),
+      h_verdict('bool', '\tif r, ok := response.VerificationResults[capability]; ok {\n\t\treturn r, true\n\t}\n\treturn nil, false\n')]),
+ dict(name='verdict-from-helper-one-exit-untested', expect=DE_HKEY, edits=[(V, LK_OLD, lk_helper('!ok')),
+      h_verdict('bool', '\tr, ok := response.VerificationResults[capability]\n\tif capability == pluginframework.CapabilityRevocationCheckVerifier {\n\t\treturn r, ok\n\t}\n\treturn r, r != nil\n')]),
+ dict(name='verdict-from-helper-caller-on-the-wrong-side', expect=DE_HKEY, edits=[(V, LK_OLD, lk_helper('ok')), h_verdict('bool', '\tr := response.VerificationResults[capability]\n\treturn r, r != nil\n')]),
+ dict(name='verdict-from-helper-error-on-absence-only', expect=DE_HKEY, edits=[(V, LK_OLD, LK_ERR),
+      h_verdict('error', '\tr, ok := response.VerificationResults[capability]\n\tif !ok {\n\t\treturn nil, errors.New("no verdict")\n\t}\n\treturn r, nil\n')]),
+ dict(name='benign-verdict-from-helper-error-on-absence-or-null', expect='silent', edits=[(V, LK_OLD, LK_ERR),
+      h_verdict('error', '\tr, ok := response.VerificationResults[capability]\n\tif !ok || r == nil {\n\t\treturn r, errors.New("no verdict")\n\t}\n\treturn r, nil\n')]),
+ # a closure that reads the verdict: it must only ever run after the test
+ dict(name='benign-verdict-closure-called-after-test', file=V, expect='silent', find=LK_OLD,
+      replace='\t\tpluginResult := response.VerificationResults[capability]\n\t\tfailed := func() bool { return !pluginResult.Success }\n\t\tif pluginResult == nil || (failed() && capability == "") {\n'),
+ dict(name='verdict-closure-called-before-test', file=V, expect=DE_KEY, find=LK_OLD,
+      replace='\t\tpluginResult := response.VerificationResults[capability]\n\t\tfailed := func() bool { return !pluginResult.Success }\n\t\tif failed() && pluginResult == nil {\n'),
+ # every verdict of the response read in a loop
+ dict(name='verdict-range-value-untested', file=V, expect=DE_KEY, find=LK_OLD,
+      replace='\t\tfor _, other := range response.VerificationResults {\n\t\t\tif other.Success {\n\t\t\t\tbreak\n\t\t\t}\n\t\t}\n' + LK_OLD),
+ dict(name='benign-verdict-range-value-tested', file=V, expect='silent', find=LK_OLD,
+      replace='\t\tfor _, other := range response.VerificationResults {\n\t\t\tif other != nil && other.Success {\n\t\t\t\tbreak\n\t\t\t}\n\t\t}\n' + LK_OLD),
+]
+
+# a constant bound that an earlier access of the same value already proved (`x[0]` … `x[1:]`)
+LEAF = '\tleafCert := certs[0] // trusted identities only supported on the leaf cert\n'
+VARIANTS += [
+ dict(name='benign-rest-slice-after-first-element', file=V, expect='silent', find=LEAF, replace=LEAF + '\tfor _, issuer := range certs[1:] {\n\t\t_ = issuer\n\t}\n'),
+ dict(name='benign-first-element-read-twice', file=V, expect='silent', find=LEAF, replace=LEAF + '\t_ = certs[0].Subject\n\t_ = certs[:1]\n'),
+ dict(name='slice-beyond-what-the-first-element-proves', file=V, expect='flagged(slice/ngo/verifier.verifyX509TrustedIdentities)', find=LEAF, replace=LEAF + '\tfor _, issuer := range certs[2:] {\n\t\t_ = issuer\n\t}\n'),
+ dict(name='second-element-after-first-only', file=V, expect='flagged(index/ngo/verifier.verifyX509TrustedIdentities)', find=LEAF, replace=LEAF + '\t_ = certs[1].Subject\n'),
+ dict(name='rest-slice-before-first-element-on-another-branch', file=V, expect='flagged(slice/ngo/verifier.verifyX509TrustedIdentities)', find=LEAF,
+      replace='\tif len(trustedX509Identities) > 3 {\n\t\t_ = certs[0].Subject\n\t}\n\t_ = certs[1:]\n' + LEAF),
+]
